@@ -301,6 +301,17 @@ def run(p: Program, rep: Report, tier: str) -> None:
                 okd = True
     if not okd:
         rep.undecide("R16.4", "delete_cookie does not call set_cookie")
+    # ---------------------------------------------------------------- R16.1 the header mapping's constructor (shared rule, sa/props/hdr_common.py)
+    from .hdr_common import headers_ctor_passthrough
+    for _f in (headers_ctor_passthrough,):
+        for kind, fn_, node, cons, msg in _f(p):
+            if kind == "ok":
+                rep.analysed(fn_.fq)
+                rep.ok("R16.1", msg)
+            elif kind == "undecided":
+                rep.undecide("R16.1", msg)
+            else:
+                rep.violation("R16.1", construct(fn_, text=cons), where(fn_, node), msg)
     rep.require_instances("R16.3", 4)
     rep.require_instances("R16.4", 12)
 
